@@ -6,7 +6,7 @@ import gc
 from sim import devices
 from sim.canon import Log
 from sim.catalogue import RECIPES, NAMES, public_view_constructors
-from sim.core import outcome, quarantined, draw_config
+from sim.core import outcome, quarantined, draw_config, not_a_harness_bug
 from sim.canon import enc_table
 from sim.gen import gen_table, gen_sorted_table
 from sim.loader import load_petl
@@ -222,7 +222,7 @@ def run_case(case):
                     expected = expected[:1] + _fork_reference(
                         e, stack, case, sb.path)
             except Exception as ex:
-                why = type(ex).__name__
+                why = type(not_a_harness_bug(ex)).__name__
             if why is not None:
                 # (outside the handler: the traceback must be gone before
                 # the sandbox is removed)
